@@ -15,6 +15,12 @@ Grid (deterministic, seeded + exhaustive small cases):
   - generic types `<A: Trace + 'static, ..>` instantiated with several argument types
   - `#[rust_cc(unsafe_no_drop)]` types (with a hand-written Drop)
   - ignored fields / ignored variants whose field type does not implement Trace at all
+  - MULTIPLE ATTRIBUTES on one field / variant: `#[rust_cc(ignore)]` before, between and after
+    doc comments, `#[allow(..)]`, `#[cfg_attr(all(), ..)]`, a second `#[rust_cc(ignore)]`, in all
+    orders, on named/tuple struct fields, enum variants and enum-variant fields; and fields that
+    only carry unrelated attributes
+  - "plain" types whose fields need no drop, for which `needs_drop::<T>()` reveals whether the
+    macro emitted a Drop impl (also when nothing at all is traced)
 """
 import argparse
 import os
@@ -62,8 +68,46 @@ PALETTE = [
 OPAQUE = ("Opaque", opaque)
 
 
-def const_field(decl, factory, ignore):
-    return {"decl": decl, "build": (lambda P, f=factory: f()), "ignore": ignore}
+# Attribute words.  I*: expands to #[rust_cc(ignore)] (model: WIgnore); O*: unrelated (WOther).
+ATTR_SRC = {
+    "I": "#[rust_cc(ignore)]",
+    "Ic": "#[cfg_attr(all(), rust_cc(ignore))]",
+    "Od": "/// a doc comment",
+    "Oa": "#[allow(dead_code)]",
+    "Oc": "#[cfg_attr(all(), allow(unused))]",
+    "Om": "#[doc = \"another doc\"]",
+}
+
+
+def words_ignore(ws):
+    return any(w.startswith("I") for w in ws)
+
+
+def attr_words(x):
+    """The attribute words of a field / variant description."""
+    if x.get("attrs") is not None:
+        return x["attrs"]
+    return ["I"] if x["ignore"] else []
+
+
+def const_field(decl, factory, ignore, attrs=None):
+    if attrs is not None:
+        ignore = words_ignore(attrs)
+    return {"decl": decl, "build": (lambda P, f=factory: f()), "ignore": ignore, "attrs": attrs}
+
+
+def attr_patterns():
+    import itertools
+    pats = []
+    for p in itertools.permutations(["Od", "Oa", "Oc", "I"]):
+        pats.append(list(p))
+    for p in sorted(set(itertools.permutations(["Od", "Oa", "I", "I"]))):
+        pats.append(list(p))
+    pats += [["I", "I"], ["Ic"], ["Od", "Ic", "Oa"], ["Ic", "I"], ["Om", "I"], ["I", "Om"]]
+    for p in itertools.permutations(["Od", "Oa", "Oc"]):
+        pats.append(list(p))
+    pats += [["Od"], ["Oa"], ["Oc"], ["Om", "Od"]]
+    return pats
 
 
 def cc_field(ignore):
@@ -77,14 +121,16 @@ def rand_field(rnd, ignore, allow_opaque):
     return const_field(decl, f, ignore)
 
 
-def struct(name, kind, fields, no_drop=False, generics=(), args=()):
+def struct(name, kind, fields, no_drop=False, generics=(), args=(), manual_drop=None, plain=False):
     return {"name": name, "enum": False, "no_drop": no_drop, "generics": list(generics),
-            "variants": [{"name": None, "kind": kind, "ignore": False, "fields": fields}], "args": list(args)}
+            "variants": [{"name": None, "kind": kind, "ignore": False, "fields": fields}], "args": list(args),
+            "manual_drop": no_drop if manual_drop is None else manual_drop, "plain": plain}
 
 
-def enum(name, variants, no_drop=False, generics=(), args=()):
+def enum(name, variants, no_drop=False, generics=(), args=(), manual_drop=None, plain=False):
     return {"name": name, "enum": True, "no_drop": no_drop, "generics": list(generics),
-            "variants": variants, "args": list(args)}
+            "variants": variants, "args": list(args),
+            "manual_drop": no_drop if manual_drop is None else manual_drop, "plain": plain}
 
 
 def types():
@@ -177,6 +223,46 @@ def types():
     for i in range(4):
         ts.append(struct("ND%d" % i, "tuple" if i % 2 else "named", [rand_field(rnd, rnd.random() < 0.4, False) for _ in range(i + 1)], no_drop=True))
     ts.append(enum("NDE", [rand_variant("V0", "tuple", False), rand_variant("V1", "named", True), rand_variant("V2", "unit", False)], no_drop=True))
+
+    # several attributes on one field / variant, in all orders
+    def variant(name, kind, fields, attrs=None):
+        return {"name": name, "kind": kind, "ignore": words_ignore(attrs or []), "attrs": attrs, "fields": fields}
+
+    for pi, pat in enumerate(attr_patterns()):
+        rev = list(reversed(pat))
+        ts.append(struct("AN%d" % pi, "named", [cc_field(False), const_field("Cc<Leaf>", cslot, None, pat),
+                                                 const_field("Cc<Leaf>", cslot, None, rev)]))
+        ts.append(struct("AT%d" % pi, "tuple", [const_field("Cc<Leaf>", cslot, None, pat), cc_field(False),
+                                                 const_field("(Cc<Leaf>,User,)", lambda: tuple_(cslot(), uslot()), None, rev)]))
+        ts.append(enum("AV%d" % pi, [
+            variant("V0", "tuple" if pi % 2 else "named", [cc_field(False), cc_field(False)], pat),
+            variant("V1", "named" if pi % 2 else "tuple", [cc_field(False)], None),
+            variant("V2", "unit", [], rev)]))
+        ts.append(enum("AF%d" % pi, [
+            variant("V0", "named", [const_field("Cc<Leaf>", cslot, None, pat), cc_field(False)], None),
+            variant("V1", "tuple", [cc_field(False), const_field("Cc<Leaf>", cslot, None, rev)], ["Od", "Oa"]),
+            variant("V2", "unit", [], None)]))
+
+    # plain types: no field needs drop, so needs_drop::<T>() == "the macro emitted a Drop impl"
+    def u32f(ig):
+        return const_field("u32", lambda: scalar(0), ig)
+
+    def plain_set(suffix, nd):
+        kw = dict(no_drop=nd, manual_drop=False, plain=True)
+        return [
+            struct("PUnit" + suffix, "unit", [], **kw),
+            struct("PEmptyT" + suffix, "tuple", [], **kw),
+            struct("PEmptyN" + suffix, "named", [], **kw),
+            struct("PScalars" + suffix, "tuple", [u32f(False), u32f(True)], **kw),
+            struct("PAllIgnored" + suffix, "named", [u32f(True), const_field("User", uslot, True), const_field("Opaque", opaque, True)], **kw),
+            struct("PPhantom" + suffix, "named", [const_field("PhantomData<Cc<Leaf>>", phantom, False)], **kw),
+            enum("PUnitEnum" + suffix, [variant("V0", "unit", []), variant("V1", "unit", []), variant("V2", "unit", [])], **kw),
+            enum("PAllVarIgnored" + suffix, [variant("V0", "tuple", [u32f(False)], ["I"]), variant("V1", "unit", [], ["I"]),
+                                             variant("V2", "named", [u32f(False)], ["Od", "I"])], **kw),
+        ]
+
+    ts += plain_set("", False)
+    ts += plain_set("ND", True)
     return ts
 
 
@@ -191,14 +277,20 @@ def rust_typedef(t):
         out.append("#[rust_cc(unsafe_no_drop)]\n")
     gen = "<" + ", ".join("%s: Trace + 'static" % g for g in t["generics"]) + ">" if t["generics"] else ""
 
+    def attrs_src(x, sep):
+        return "".join(ATTR_SRC[w] + sep for w in attr_words(x))
+
     def fields_src(v, named_prefix="f"):
+        multi = any(f.get("attrs") for f in v["fields"])
         items = []
         for i, f in enumerate(v["fields"]):
-            attr = "#[rust_cc(ignore)] " if f["ignore"] else ""
+            attr = attrs_src(f, "\n        " if multi else " ")
             if v["kind"] == "named":
                 items.append("%s%s%d: %s" % (attr, named_prefix, i, f["decl"]))
             else:
                 items.append("%s%s" % (attr, f["decl"]))
+        if multi:
+            return "\n        " + ",\n        ".join(items) + ",\n    "
         return ", ".join(items)
 
     if not t["enum"]:
@@ -212,7 +304,7 @@ def rust_typedef(t):
     else:
         out.append("pub enum %s%s {\n" % (t["name"], gen))
         for v in t["variants"]:
-            attr = "    #[rust_cc(ignore)]\n" if v["ignore"] else ""
+            attr = "".join("    " + ATTR_SRC[w] + "\n" for w in attr_words(v))
             if v["kind"] == "unit":
                 out.append("%s    %s,\n" % (attr, v["name"]))
             elif v["kind"] == "tuple":
@@ -220,18 +312,18 @@ def rust_typedef(t):
             else:
                 out.append("%s    %s { %s },\n" % (attr, v["name"], fields_src(v)))
         out.append("}\n")
-    if t["no_drop"]:
+    if t["manual_drop"]:
         out.append("impl%s Drop for %s%s { fn drop(&mut self) { note_user_drop(); } }\n" % (
             gen, t["name"], "<" + ", ".join(t["generics"]) + ">" if t["generics"] else ""))
     return "".join(out)
 
 
-def coq_attrs(ig, nd):
-    return "(Attrs %s %s)" % ("true" if ig else "false", "true" if nd else "false")
+def coq_words(ws):
+    return "[" + "; ".join({"I": "WIgnore", "N": "WNoDrop", "O": "WOther"}[w[0]] for w in ws) + "]"
 
 
 def coq_vdesc_fields(v):
-    return "[" + "; ".join("FDesc %s" % coq_attrs(f["ignore"], False) for f in v["fields"]) + "]"
+    return "[" + "; ".join("FDesc %s" % coq_words(attr_words(f)) for f in v["fields"]) + "]"
 
 
 def coq_kind(k):
@@ -241,9 +333,9 @@ def coq_kind(k):
 def coq_tdesc(t):
     if not t["enum"]:
         v = t["variants"][0]
-        return "(TStruct %s %s %s)" % (coq_attrs(False, t["no_drop"]), coq_kind(v["kind"]), coq_vdesc_fields(v))
-    vs = "; ".join("VDesc %s %s %s" % (coq_attrs(v["ignore"], False), coq_kind(v["kind"]), coq_vdesc_fields(v)) for v in t["variants"])
-    return "(TEnum %s [%s])" % (coq_attrs(False, t["no_drop"]), vs)
+        return "(TStruct %s %s %s)" % (coq_words(["N"] if t["no_drop"] else []), coq_kind(v["kind"]), coq_vdesc_fields(v))
+    vs = "; ".join("VDesc %s %s %s" % (coq_words(attr_words(v)), coq_kind(v["kind"]), coq_vdesc_fields(v)) for v in t["variants"])
+    return "(TEnum %s [%s])" % (coq_words(["N"] if t["no_drop"] else []), vs)
 
 
 def cases():
@@ -279,7 +371,7 @@ def cases():
             out.append({
                 "id": cid, "name": "%s#%d" % (t["name"], vi), "k": k, "keep": -1 if keep is None else keep,
                 "rs": val, "ty": full_ty, "coq": "%s %s" % (coq_tdesc(t), coqv), "tdesc": coq_tdesc(t), "tvalue": coqv,
-                "typedef": rust_typedef(t).strip(), "opaque": t["opaque"], "type_name": t["name"],
+                "typedef": rust_typedef(t).strip(), "opaque": t["opaque"], "type_name": t["name"], "plain": t["plain"],
             })
             cid += 1
     return out, tys
@@ -322,6 +414,13 @@ def gen_rust(cs, tys):
             parts.append('    #[cfg(feature = "opaque")]\n')
         parts.append("    c%d();\n" % c["id"])
     parts.append("}\n")
+    parts.append("\n/// `needsdrop <type> <0|1>` for the plain types (no field needs drop).\npub fn needs_drop_report() {\n")
+    for t in tys:
+        if t["plain"]:
+            if t["opaque"]:
+                parts.append('    #[cfg(feature = "opaque")]\n')
+            parts.append('    println!("needsdrop %s {}", std::mem::needs_drop::<%s>() as u8);\n' % (t["name"], t["name"]))
+    parts.append("}\n")
     return "".join(parts)
 
 
@@ -329,7 +428,7 @@ COQ_ROW = """
 Definition row (c : nat * (nat * (tdesc * tvalue))) : nat * list (list nat) :=
   let '(id, (k, (d, tv))) := c in
   (id, [counts k (derived_visit d tv); derived_e2e_expect k d tv; derived_keep_expect k tv;
-        derived_finalize d tv;
+        derived_finalize d tv; derived_utrace d tv;
         [if wf_tvalueb d tv then 1 else 0; if derive_accepts d then 1 else 0; if wf_tdesc d then 1 else 0;
          if emits_drop d then 1 else 0]]).
 
@@ -417,6 +516,38 @@ fn main() {}
 enum E { #[rust_cc(unsafe_no_drop)] A(Cc<u32>), B { #[rust_cc(unsafe_no_drop)] x: u8 } }
 fn main() {}
 """),
+]
+
+UNTRACED_TYPES = """#[derive(Trace, Finalize)]
+%(nd)sstruct UnitS;
+#[derive(Trace, Finalize)]
+%(nd)sstruct EmptyN {}
+#[derive(Trace, Finalize)]
+%(nd)sstruct EmptyT();
+#[derive(Trace, Finalize)]
+%(nd)sstruct AllIgn { #[rust_cc(ignore)] a: %(fty)s, /** doc */ #[allow(dead_code)] #[rust_cc(ignore)] b: u8 }
+#[derive(Trace, Finalize)]
+%(nd)senum AllVarIgn { #[rust_cc(ignore)] A(%(fty)s), #[rust_cc(ignore)] B }
+#[derive(Trace, Finalize)]
+%(nd)senum UnitsOnly { A, B }
+"""
+UNTRACED_NAMES = ["UnitS", "EmptyN", "EmptyT", "AllIgn", "AllVarIgn", "UnitsOnly"]
+UNTRACED_DROPS = "".join("impl Drop for %s { fn drop(&mut self) {} }\n" % n for n in UNTRACED_NAMES)
+UNTRACED_MAIN = "fn main() { let _ = (Cc::new(UnitS), Cc::new(EmptyN {}), Cc::new(EmptyT()), Cc::new(AllVarIgn::B), Cc::new(UnitsOnly::A), UnitsOnly::B); }\n"
+ND = "#[rust_cc(unsafe_no_drop)]\n"
+
+COMPILE_PROBES += [
+    # nothing ends up traced: the Drop impl (hence the conflict) must still be there
+    ("drop_conflict_untraced", "fail", ["E0119"] + ["for type `%s`" % n for n in UNTRACED_NAMES],
+     CP_PRELUDE + UNTRACED_TYPES % {"nd": "", "fty": "Cc<u32>"} + UNTRACED_DROPS + UNTRACED_MAIN),
+    ("no_drop_untraced", "pass", None,
+     CP_PRELUDE + UNTRACED_TYPES % {"nd": ND, "fty": "Cc<u32>"} + UNTRACED_DROPS + UNTRACED_MAIN),
+    ("drop_impl_emitted_untraced", "pass", None,
+     CP_PRELUDE + UNTRACED_TYPES % {"nd": "", "fty": "u32"}
+     + "mod nd {\n    use rust_cc::*;\n" + UNTRACED_TYPES % {"nd": ND, "fty": "u32"} + "}\n"
+     + "".join("const _: () = assert!(std::mem::needs_drop::<%s>());\nconst _: () = assert!(!std::mem::needs_drop::<nd::%s>());\n" % (n, n)
+               for n in UNTRACED_NAMES)
+     + "fn main() {}\n"),
 ]
 
 CP_CARGO = """[package]
